@@ -455,7 +455,8 @@ theorem submitAll_VersDisjoint (e : Env) (old : List Nat) (lh : Int) (subs : Lis
   | nil => exact hinv
   | cons i rest ih => exact ih _ (doTx_VersDisjoint e old s lh i hinv hc.1) hc.2
 
-/-- **no double spend over whole histories**: after any list of submissions (each admitted one hash-causal) from a state
+/-- **no double spend over whole histories** (submission histories; for histories with `play`, `playForMiner` and `walk`,
+and without the causality hypotheses, see `XV.C02.LedgerK` / `XV.C02.no_double_supersede`): after any list of submissions (each admitted one hash-causal) from a state
 whose pending transactions have all their inputs spent and all their superseded versions non-current, two distinct
 pending transactions — at least one of them admitted during the history — share no token input and supersede no common
 key version -/
